@@ -108,3 +108,11 @@ pub fn t_as_bytes(id: String) -> (Vec<u8>, Vec<u8>) { (key_of(&id).to_vec(), id.
 
 // pre-computed booleans combined lazily: the second operand is not a fact when the first decides
 pub fn t_lazy_or(x: u128, a: u128, b: u128) -> u128 { let p = x == a; let q = x == b; if !(p || q) { return 0; } 1 }
+
+// for_each / try_for_each run the closure for every element with its effects on the caller's state
+pub fn t_for_each(a: u128, b: u128) -> u128 { let mut acc = 0u128; [a, b].iter().for_each(|x| acc = acc + *x); acc }
+pub fn t_try_for_each(v: Vec<u128>, lim: u128) -> Result<u128, u8> {
+    let mut n = 0u128;
+    v.iter().try_for_each(|x| if *x > lim { Err(1u8) } else { n = n + 1; Ok(()) })?;
+    Ok(n)
+}
